@@ -16,6 +16,9 @@ import (
 // through the verif_elem hook (no go-ipa decoding or encoding code involved).
 type RPt = ref.Pt[gfr.Element]
 
+// FE is the coordinate type of RPt.
+type FE = gfr.Element
+
 var G = ref.Fast
 
 // ToImpl builds a go-ipa element holding exactly the projective triple of p.
